@@ -153,6 +153,9 @@ struct Case {
 }
 
 impl Case {
+    fn all_ops(&self) -> impl Iterator<Item = &Vec<String>> {
+        self.pro.iter().chain(self.during.iter()).chain(self.mid[0].iter()).chain(self.mid[1].iter()).chain(self.child.iter())
+    }
     fn setup(&self) -> Setup {
         Setup { tty: self.tty, internal: self.internal, ignored: self.ignored.clone() }
     }
@@ -892,11 +895,25 @@ fn oracle(c: &Case, r: &Run, control: Option<&Run>) -> String {
         }
         on
     };
+    // ... or because a special built-in of that shell failed (`exec` with a redirection that cannot be performed:
+    // target at or above the soft RLIMIT_NOFILE, source closed or not writable; `set` with an option name it refuses
+    // while `portable` is on): decided on the TEXT of the case, for the ops the shell of that level runs itself
+    let limit_lowered = c.all_ops().any(|t| t[0] == "nofile" && t[1] != "unlimited");
+    let portable_on = c.all_ops().any(|t| t[0] == "opt+" && t[1] == "portable");
+    let may_fail = |ops: &[Vec<String>]| -> bool {
+        ops.iter().any(|t| match t[0].as_str() {
+            "fdw" | "fdr" => t[1] == "20" && limit_lowered,
+            "fdd" => (t[1] == "20" && limit_lowered) || is_in(&t[2], &FDS),
+            "opt+" | "opt-" => portable_on && is_in(&t[1], &NONPORTABLE_OPTS),
+            _ => false,
+        })
+    };
     let mut skipped = false;
     for j in 0..depth {
         let (bt, at, ct) = (format!("B{j}"), format!("A{j}"), format!("C{}", j + 1));
+        let own_ops: &[Vec<String>] = if j == 0 { &c.pro } else { &c.mid[j - 1] };
         let Some(b) = snap_of(&r.items, &bt) else {
-            if errexit_possible(&bt) {
+            if errexit_possible(&bt) || may_fail(own_ops) {
                 skipped = true;
                 break;
             }
@@ -909,7 +926,7 @@ fn oracle(c: &Case, r: &Run, control: Option<&Run>) -> String {
                 // the documented exception: an interactive top-level shell whose child was killed by SIGINT
                 // abandons the command line (here: the rest of the script) with that status
                 let interrupted = j == 0 && c.internal && r.status == 386;
-                if interrupted || errexit_possible(&at) {
+                if interrupted || errexit_possible(&at) || (j == 0 && may_fail(&c.during)) {
                     skipped = true;
                 } else {
                     fails.push(format!("snapshot-missing-{at}"));
@@ -1507,8 +1524,14 @@ fn pick<'a>(rng: &mut Rng, xs: &[&'a str]) -> &'a str {
     xs[rng.below(xs.len())]
 }
 
-/// one mutator of family `fam` (0..14), valid in `abs`; `phase` = 'P' | 'C' | 'W'
+/// one mutator of family `fam` (0..16), valid in `abs`; `phase` = 'P' (prologue) | 'C' (innermost child) |
+/// 'M' (a middle level) | 'W' (the top-level shell between `&` and `wait`).  In the phases that run inside a
+/// subshell ('C', 'M') an op may also be one whose special built-in FAILS (the subshell then exits with status 2
+/// after its EXIT trap): a redirection onto a descriptor at or above the soft RLIMIT_NOFILE, `N>&M` of a closed or
+/// read-only M, a non-portable option name while `portable` is on.  The top-level shell never gets one (it
+/// would end before any snapshot).
 fn gen_op(rng: &mut Rng, abs: &mut Abs, fam: usize, phase: char) -> Option<String> {
+    let may_fail = phase == 'C' || phase == 'M';
     let free_var = |rng: &mut Rng, abs: &Abs| -> Option<&'static str> {
         let c: Vec<&'static str> = VARS.iter().copied().filter(|v| !abs.readonly.iter().any(|r| r == v)).collect();
         if c.is_empty() { None } else { Some(c[rng.below(c.len())]) }
@@ -1557,7 +1580,7 @@ fn gen_op(rng: &mut Rng, abs: &mut Abs, fam: usize, phase: char) -> Option<Strin
             let on = rng.chance(1, 2);
             // `monitor` changes how every kind of subshell is started (job control): draw it more often
             let o = if rng.chance(1, 5) { "monitor" } else { pick(rng, &OPTS) };
-            if abs.portable && is_in(o, &NONPORTABLE_OPTS) {
+            if abs.portable && is_in(o, &NONPORTABLE_OPTS) && !(may_fail && rng.chance(1, 2)) {
                 return None;
             }
             if o == "portable" {
@@ -1597,6 +1620,14 @@ fn gen_op(rng: &mut Rng, abs: &mut Abs, fam: usize, phase: char) -> Option<Strin
             if fd == "20" && abs.limited && rng.chance(3, 4) {
                 fd = "3";
             }
+            if fd == "20" && abs.limited && may_fail && rng.chance(1, 2) {
+                // a redirection error: the subshell exits here
+                return Some(match rng.below(3) {
+                    0 => format!("fdw 20 {}", pick(rng, &FILES)),
+                    1 => "fdr 20".to_string(),
+                    _ => format!("fdd 20 {}", pick(rng, &["1", "2"])),
+                });
+            }
             if fd == "20" && abs.limited {
                 abs.open.retain(|x| x != fd);
                 abs.ronly.retain(|x| x != fd);
@@ -1609,6 +1640,15 @@ fn gen_op(rng: &mut Rng, abs: &mut Abs, fam: usize, phase: char) -> Option<Strin
                     format!("fdc {fd}")
                 }
                 1 => {
+                    if may_fail && rng.chance(1, 10) {
+                        // a closed or read-only source: a redirection error, the subshell exits here
+                        let bad: Vec<&str> = FDS.iter().copied()
+                            .filter(|s| *s != fd && (!abs.open.iter().any(|x| x == s) || abs.ronly.iter().any(|r| r == s)))
+                            .collect();
+                        if !bad.is_empty() {
+                            return Some(format!("fdd {fd} {}", bad[rng.below(bad.len())]));
+                        }
+                    }
                     let mut src: Vec<&str> = vec!["1", "2"];
                     // `N>&M` needs a writable M (an fd opened by `fdr` is read-only: redirection error)
                     src.extend(abs.open.iter().map(|s| s.as_str()).filter(|s| *s != fd && !abs.ronly.iter().any(|r| r == s)));
@@ -1638,7 +1678,7 @@ fn gen_op(rng: &mut Rng, abs: &mut Abs, fam: usize, phase: char) -> Option<Strin
             }
         }
         15 => {
-            if phase == 'W' {
+            if phase == 'W' || phase == 'M' {
                 return None;
             }
             "bg".to_string()
@@ -1649,7 +1689,7 @@ fn gen_op(rng: &mut Rng, abs: &mut Abs, fam: usize, phase: char) -> Option<Strin
             format!("nofile {l}")
         }
         14 => {
-            if phase == 'W' {
+            if phase == 'W' || phase == 'M' {
                 return None;
             }
             format!("local {} {}", free_var(rng, abs)?, pick(rng, &VALS))
@@ -1734,7 +1774,7 @@ fn gen_case(rng: &mut Rng, pro_fams: &[usize], kinds: &[&str], child_fams: &[usi
             let n = if raises { rng.below(3) } else { rng.below(2) };
             for _ in 0..n {
                 let fam = rng.below(NFAM);
-                if let Some(op) = gen_op(rng, &mut cabs, fam, 'W') {
+                if let Some(op) = gen_op(rng, &mut cabs, fam, 'M') {
                     parts.push(format!("{}:{op}", if j == 0 { "M" } else { "N" }));
                 }
             }
@@ -1977,6 +2017,62 @@ fn main() {
                     parts.push("C:nofile unlimited".into());
                 }
                 cases.push(parts.join("; "));
+            }
+        }
+    }
+    // (1e) a special built-in that FAILS inside a subshell (the subshell exits with status 2 after ITS OWN exit
+    // trap; the starter sees the status only): every way of failing x every kind nest x exit traps of starter / child,
+    // at the innermost level and (depth 2) in the middle level; two variants that look alike but succeed
+    {
+        let fails: [(&[&str], &str); 10] = [
+            (&["nofile 16"], "fdw 20 f1"),
+            (&["nofile 16"], "fdr 20"),
+            (&["nofile 18"], "fdd 20 1"),
+            (&["fdw 20 f1", "nofile 16"], "fdw 20 f2"),
+            (&["fdr 3"], "fdd 4 3"),
+            (&[], "fdd 4 5"),
+            (&["opt+ portable"], "opt+ login"),
+            (&["opt+ portable"], "opt- posixlycorrect"),
+            (&["fdw 20 f1", "nofile 16"], "fdd 3 20"),
+            (&["fdw 20 f1", "nofile 16"], "fdc 20"),
+        ];
+        let mut nests: Vec<Vec<&str>> = KINDS.iter().map(|k| vec![*k]).collect();
+        for (i, a) in KINDS.iter().enumerate() {
+            for (j, b) in KINDS.iter().enumerate() {
+                if o.thorough() || (i + 2 * j) % 3 == 0 {
+                    nests.push(vec![a, b]);
+                }
+            }
+        }
+        for (n, kinds) in nests.iter().enumerate() {
+            for (fi, (pro, op)) in fails.iter().enumerate() {
+                for traps in 0..4 {
+                    if !o.thorough() && kinds.len() == 2 && (n + fi + traps) % 4 != 0 {
+                        continue;
+                    }
+                    let mut parts: Vec<String> = vec![];
+                    if traps & 1 == 1 {
+                        parts.push("P:trap EXIT c1".into());
+                    }
+                    for p in pro.iter() {
+                        parts.push(format!("P:{p}"));
+                    }
+                    for k in kinds {
+                        parts.push(format!("K:{k}"));
+                    }
+                    // in the middle level of a nest of two: level 1 ends before it starts level 2
+                    let mid = kinds.len() == 2 && (n + fi) % 2 == 1;
+                    let tag = if mid { "M" } else { "C" };
+                    if traps & 2 == 2 {
+                        parts.push(format!("{tag}:trap EXIT c{}", if mid { 6 } else { 4 }));
+                    }
+                    parts.push(format!("{tag}:{op}"));
+                    parts.push(format!("{tag}:set va 1"));
+                    if mid {
+                        parts.push("C:set vb two".into());
+                    }
+                    cases.push(parts.join("; "));
+                }
             }
         }
     }
